@@ -138,3 +138,19 @@ def normal(doc_text: str):
         return json.loads(doc_text)
     except (TypeError, ValueError):
         return None
+
+
+def cache_use(prj: Project, text, first: Outcome | None = None):
+    """what `codelimit scan` does with a cache document of this text (None: no document): scan_command interpreted from the
+    state a complete scan leaves, with the document replaced -> 'used' (no source file is read: every entry taken from the cache),
+    'ignored' (every source file is read again), 'partly used', or 'raises <name>'"""
+    first = first or scan(prj, State())
+    if first.raised:
+        raise Unknown(f"the first scan raises {first.raised}")
+    st = first.state.with_file(DOC, text)
+    out = scan(prj, st)
+    if out.raised:
+        return f"raises {out.raised}"
+    sources = {ROOT + "/a.py", ROOT + "/b.js", ROOT + "/sub/c.py"}
+    read = sources & set(out.read)
+    return "used" if not read else "ignored" if read == sources else "partly used"
